@@ -189,7 +189,7 @@ def md012(m, cfg):
     exp, abstain = [], set(m.html_lines)
     n = len(m.lines)
     i = 1
-    last = n - 1 if m.lines and m.lines[-1] == "" else n  # the empty pseudo-line after a final newline is not a blank line
+    last = n  # the application's line model (text.split) delivers the empty line after a final newline too
     while i <= last:
         if m.blank(i) and i not in m.code_lines:
             j = i
@@ -295,7 +295,7 @@ def md022(m, cfg):
             continue
         need = []
         # above
-        if not (first_block is not None and first_block["tok"] is h["tok"]):
+        if any(not m.blank(x) for x in range(1, h["start"])):
             k = 0
             ln = h["start"] - 1
             while ln >= 1 and m.blank(ln):
@@ -332,7 +332,9 @@ def md023(m, cfg):
             abstain |= _span(h)
             continue
         ls = [m.lines[i - 1] for i in range(h["start"], h["end"] + 1)]
-        if any(l[:1] in (" ", "\t") for l in ls):
+        if any(l[:1] == "\t" or (l[:1] == " " and "\t" in l[: len(l) - len(l.lstrip())]) for l in ls):
+            abstain |= _span(h)  # the page speaks of "leading spaces"
+        elif any(l[:1] == " " for l in ls):
             exp.append(_span(h))
     return exp, abstain
 
@@ -590,7 +592,7 @@ GRIDS = {
     "md009": [{"br_spaces": 3}, {"strict": True}],
     "md010": [{"code_blocks": False}],
     "md012": [{"maximum": 2}],
-    "md013": [{"line_length": 12}, {"line_length": 12, "strict": True}, {"line_length": 12, "code_blocks": False, "code_block_line_length": 12}, {"line_length": 12, "headings": False, "heading_line_length": 12}],
+    "md013": [{"line_length": 12}, {"line_length": 12, "strict": True}, {"line_length": 12, "code_blocks": False, "code_block_line_length": 12}, {"line_length": 12, "headings": False, "heading_line_length": 12}, {"heading_line_length": 5}, {"code_block_line_length": 5}, {"line_length": 5, "heading_line_length": 30, "code_block_line_length": 30}],
     "md022": [{"lines_above": 0}, {"lines_below": 0}, {"lines_above": 2, "lines_below": 2}],
     "md025": [{"level": 2}],
     "md026": [{"punctuation": ".?"}],
